@@ -34,7 +34,7 @@ func (x *Exec) builtin(fr *frame, s *State, b *ssa.Builtin, c *ssa.CallCommon, a
 			}
 			return []Value{{T: it, L: []Term{v.L[3]}}}
 		case *types.Basic:
-			return []Value{{T: it, L: []Term{app(SBV64, "str.len", v.L[0])}}}
+			return []Value{{T: it, L: []Term{app(SBV64, "sx.len", v.L[0])}}}
 		case *types.Array:
 			return []Value{{T: it, L: []Term{BVLitI(64, u.Len())}}}
 		case *types.Pointer:
@@ -149,7 +149,7 @@ func (x *Exec) copyModel(fr *frame, s *State, dst, src Value) Value {
 	st := x.stride(sl.Elem())
 	var n Term
 	if isString(src.T) {
-		sln := app(SBV64, "str.len", src.L[0])
+		sln := app(SBV64, "sx.len", src.L[0])
 		n = x.C.Define("n", Ite(BVCmp("bvult", dst.L[2], sln), dst.L[2], sln))
 		h := x.heap(s, SBV8)
 		oldObj := Select(h, dst.L[0], ObjSort(SBV8))
@@ -157,7 +157,7 @@ func (x *Exec) copyModel(fr *frame, s *State, dst, src Value) Value {
 		j := x.C.BoundVar("j", SBV64)
 		rel := BVOp("bvsub", j, dst.L[1])
 		x.C.Assume(Implies(s.Reach, Forall([]Term{j}, Eq(Select(obj, j, SBV8),
-			Ite(BVCmp("bvult", rel, n), app(SBV8, "str.at", src.L[0], rel), Select(oldObj, j, SBV8))))))
+			Ite(BVCmp("bvult", rel, n), app(SBV8, "sx.at", src.L[0], rel), Select(oldObj, j, SBV8))))))
 		s.Heaps[SBV8] = x.C.Define("H", Store(h, dst.L[0], obj))
 		return Value{T: types.Typ[types.Int], L: []Term{n}}
 	}
@@ -233,11 +233,14 @@ func (x *Exec) stdlibModel(fr *frame, s *State, callee *ssa.Function, args []Val
 		return []Value{}, true
 	case strings.HasPrefix(k, "(*atomic.Bool)."):
 		x.C.Trusted["sync/atomic operations are modelled as plain sequential loads/stores"] = true
+		x.noteStructAddr(s, deref(args[0].T), args[0].L[0], args[0].L[1])
 		// struct{ _ noCopy; v uint32 }
 		addr := args[0]
 		cur := ld(addr, types.Typ[types.Uint32])
 		curB := Not(Eq(cur.L[0], BVLitI(32, 0)))
-		b2u := func(b Term) Value { return Value{T: types.Typ[types.Uint32], L: []Term{Ite(b, BVLitI(32, 1), BVLitI(32, 0))}} }
+		b2u := func(b Term) Value {
+			return Value{T: types.Typ[types.Uint32], L: []Term{Ite(b, BVLitI(32, 1), BVLitI(32, 0))}}
+		}
 		switch callee.Name() {
 		case "Load":
 			return []Value{boolVal(curB)}, true
@@ -254,6 +257,7 @@ func (x *Exec) stdlibModel(fr *frame, s *State, callee *ssa.Function, args []Val
 		}
 	case strings.HasPrefix(k, "(*atomic.Int32)."), strings.HasPrefix(k, "(*atomic.Uint32)."), strings.HasPrefix(k, "(*atomic.Int64)."), strings.HasPrefix(k, "(*atomic.Uint64)."):
 		x.C.Trusted["sync/atomic operations are modelled as plain sequential loads/stores"] = true
+		x.noteStructAddr(s, deref(args[0].T), args[0].L[0], args[0].L[1])
 		var vt types.Type
 		switch {
 		case strings.Contains(k, "Int32"):
@@ -290,6 +294,7 @@ func (x *Exec) stdlibModel(fr *frame, s *State, callee *ssa.Function, args []Val
 		x.C.Trusted["sync/atomic operations are modelled as plain sequential loads/stores"] = true
 		anyT := types.NewInterfaceType(nil, nil)
 		addr := args[0]
+		x.noteStructAddr(s, deref(args[0].T), args[0].L[0], args[0].L[1])
 		cur := ld(addr, anyT)
 		switch callee.Name() {
 		case "Load":
@@ -370,15 +375,15 @@ func (x *Exec) stdlibModel(fr *frame, s *State, callee *ssa.Function, args []Val
 	case k == "strings.EqualFold":
 		a, b := args[0].L[0], args[1].L[0]
 		// reflexive, symmetric (by ordering the arguments is not possible syntactically: axioms instead)
-		t := app(SBool, "str.fold", a, b)
-		x.C.Assume(And(app(SBool, "str.fold", a, a), app(SBool, "str.fold", b, b), Eq(t, app(SBool, "str.fold", b, a)),
-			Implies(Eq(a, b), t), Eq(t, Eq(app(SStr, "str.lower", a), app(SStr, "str.lower", b)))))
+		t := app(SBool, "sx.fold", a, b)
+		x.C.Assume(And(app(SBool, "sx.fold", a, a), app(SBool, "sx.fold", b, b), Eq(t, app(SBool, "sx.fold", b, a)),
+			Implies(Eq(a, b), t), Eq(t, Eq(app(SStr, "sx.lower", a), app(SStr, "sx.lower", b)))))
 		x.C.Trusted["strings.EqualFold(a,b) <=> ToLower(a)==ToLower(b) (holds for ASCII; stated precondition of C17)"] = true
 		return []Value{boolVal(t)}, true
 	case k == "strings.ToLower":
 		a := args[0].L[0]
-		r := app(SStr, "str.lower", a)
-		x.C.Assume(And(Eq(app(SStr, "str.lower", r), r), Eq(app(SBV64, "str.len", r), app(SBV64, "str.len", a))))
+		r := app(SStr, "sx.lower", a)
+		x.C.Assume(And(Eq(app(SStr, "sx.lower", r), r), Eq(app(SBV64, "sx.len", r), app(SBV64, "sx.len", a))))
 		x.C.Trusted["strings.ToLower idempotent and length-preserving (ASCII)"] = true
 		return []Value{{T: res(0), L: []Term{r}}}, true
 	case k == "bytes.Equal":
